@@ -62,20 +62,37 @@ def wrap_list(prog, vals):
     return prog + 'list64 %d %s %s ' % (k, ' '.join(map(str, starts)), ' '.join(map(str, stops))), [vals[a:b] for a, b in zip(starts, stops)]
 
 
+RECORDS = [False]
+
+
 def gen(depth):
     prog, vals = gen_leaf(random.randint(0, 8))
     prog, vals = wrap_option(prog, vals)
+    rec_at = random.randrange(depth) if RECORDS[0] else -1
     for d in range(depth - 1):
+        if d == rec_at:
+            prog, vals = prog + 'dup record 2 %d x y ' % len(vals), [None if v is None and False else {'x': v, 'y': v} for v in vals]
         prog, vals = wrap_list(prog, vals)
         prog, vals = wrap_option(prog, vals)
+    if rec_at == depth - 1:
+        prog, vals = prog + 'dup record 2 %d x y ' % len(vals), [{'x': v, 'y': v} for v in vals]
     return prog, vals
 
 
 # ---- references on Python values (None = missing); axis counted from the outside, 0 = the array itself
 def at_axis(v, axis, fn, below_none=None):
+    # v: a list (an array or one of its lists); records (dicts) are not a level of their own
     if axis == 0:
         return fn(v)
-    return [None if x is None else at_axis(x, axis - 1, fn) for x in v]
+    out = []
+    for x in v:
+        if x is None:
+            out.append(None)
+        elif isinstance(x, dict):
+            out.append({k: at_axis([x[k]], axis, fn)[0] for k in x})
+        else:
+            out.append(at_axis(x, axis - 1, fn))
+    return out
 
 
 def ref_num(v, axis):
@@ -149,17 +166,89 @@ def ref_reduce(v, axis, name, mask, depth):
     return [None if x is None else ref_reduce(x, axis - 1, name, mask, depth - 1) for x in v]
 
 
+class Refused(Exception):
+    pass
+
+
+def ref_getitem(v, items):
+    # items: ('at', i) / ('range', a, b, c) / ('array', [..]) applied dimension by dimension; None entries stay None
+    if not items:
+        return v
+    if v is None:
+        return None
+    head, rest = items[0], items[1:]
+    if isinstance(v, dict):
+        return {k: ref_getitem(v[k], items) for k in v}
+    if not isinstance(v, list):
+        raise Refused('too many items')
+    if head[0] == 'at':
+        i = head[1] + (len(v) if head[1] < 0 else 0)
+        if not 0 <= i < len(v):
+            raise Refused('index out of range')
+        return ref_getitem(v[i], rest)
+    if head[0] == 'range':
+        a, b, c = head[1:]
+        return [ref_getitem(x, rest) for x in v[slice(a, b, c)]]
+    out = []
+    for i in head[1]:
+        j = i + (len(v) if i < 0 else 0)
+        if not 0 <= j < len(v):
+            raise Refused('index out of range')
+        out.append(ref_getitem(v[j], rest))
+    return out
+
+
+def ref_getitem_top(v, items):
+    # the first item applies to the array itself; every later item to each entry that the earlier ones keep: an 'at' removes a dimension, so the
+    # rest applies to the selected element; a range / array keeps the dimension, the rest applies to each element
+    return ref_getitem(v, items)
+
+
+def gen_items(depth):
+    items, cmd = [], []
+    narr = 0
+    for d in range(random.randint(1, depth)):
+        k = random.choice(['at', 'range', 'range', 'array'])
+        if k == 'array' and narr:
+            k = 'range'
+        if k == 'at':
+            i = random.randint(-3, 3); items.append(('at', i)); cmd.append('at %d' % i)
+        elif k == 'range':
+            a, b = random.choice([None, -2, -1, 0, 1, 2]), random.choice([None, -2, -1, 0, 1, 2, 3])
+            c = random.choice([1, 1, 2, -1])
+            items.append(('range', a, b, c)); cmd.append('range %s %s %d' % ('NONE' if a is None else a, 'NONE' if b is None else b, c))
+        else:
+            narr += 1
+            idx = [random.randint(-2, 2) for _ in range(random.randint(0, 3))]
+            items.append(('array', idx)); cmd.append('array %s' % ints(idx))
+    return items, 'getitem %d %s' % (len(items), ' '.join(cmd))
+
+
 def main():
     seed, count = int(sys.argv[1]), int(sys.argv[2])
     ops = sys.argv[3].split(',') if len(sys.argv) > 3 else ['num', 'localindex', 'rpad', 'rpadclip', 'flatten', 'sort', 'argsort', 'comb']
     random.seed(seed)
+    if 'records' in sys.argv:
+        RECORDS[0] = True
     bad = 0
     for t in range(count):
         depth = random.randint(1, 3)
         prog, v = gen(depth)
         if R(prog + 'validity') != ('OK', ''):
             continue
-        for op in ops:
+        if 'getitem' in ops:
+            for _ in range(6):
+                items, cmd = gen_items(depth)
+                try:
+                    exp = ('OK', ref_getitem_top(v, items))
+                except Refused as e:
+                    exp = ('ERR', str(e))
+                got = R(prog + cmd); main.n = getattr(main, 'n', 0) + 1
+                if (got[0] == 'OK') != (exp[0] == 'OK') or (got[0] == 'OK' and got[1] != exp[1]):
+                    bad += 1
+                    if bad <= 15:
+                        print('MISMATCH %s\n   value %s\n   got %s\n   exp %s\n   prog %s' % (cmd, v, str(got)[:300], str(exp)[:300], prog + cmd))
+        for op in [o for o in ops if o != 'getitem']:
             for axis in range(0, depth):
                 for neg in (False, True):
                     ax = axis - depth if neg else axis
@@ -167,7 +256,7 @@ def main():
                         if op == 'num':
                             if axis == 0 or axis > depth - 1: continue
                             cmd, exp = 'num %d' % ax, ref_num(v, axis - 1) if axis >= 1 else None
-                            exp = at_axis(v, axis - 1, lambda l: [None if x is None else len(x) for x in l])
+                            exp = at_axis(v, axis, len)
                         elif op == 'localindex':
                             cmd, exp = 'localindex %d' % ax, ref_localindex(v, axis)
                         elif op in ('rpad', 'rpadclip'):
@@ -190,6 +279,8 @@ def main():
                     except TypeError:
                         continue
                     got = R(prog + cmd); main.n = getattr(main, "n", 0) + 1
+                    if got[0] == 'ERR' and 'exceeds the min depth' in str(got[1]) and RECORDS[0] and neg:
+                        continue        # the library refuses a negative axis that reaches the level of a record or above (its rule, an error, not a wrong answer)
                     if got[0] != 'OK' or got[1] != exp:
                         bad += 1
                         if bad <= int(sys.argv[4]) if len(sys.argv) > 4 else bad <= 15:
